@@ -182,8 +182,25 @@ def cut_run(N):
     return run
 
 
+def _throw_sampler(N):
+    import math
+
+    def s(rng):
+        h = float(10 ** rng.uniform(0, 3))
+        R = 6378.1
+        aH = math.pi / 2 - math.acos(R / (R + h))
+        v = {"det_alt": h, "limb": float(rng.uniform(0.02, 0.98) * aH), "T_obs": float(rng.uniform(10, 1e5)), "t0": float(rng.uniform(0, 1e6))}
+        for i in range(N):
+            v[f"alt{i}"] = -math.pi / 2 + float(rng.uniform(0.0, 1.4)) * aH  # nadir angle from 0 to beyond the horizon
+            v[f"az{i}"] = float(rng.uniform(0, 360))
+        return v
+
+    return s
+
+
 def job_throw(N, tier):
-    return harness.run_job(f"RegionGeomToO.throw(N={N})", throw_run(N), timeout_ms=120000 if tier == "quick" else 600000, second=(tier == "thorough"), prune_timeout_ms=5000)
+    return harness.run_job(f"RegionGeomToO.throw(N={N})", throw_run(N), timeout_ms=120000 if tier == "quick" else 600000, second=(tier == "thorough"), prune_timeout_ms=5000,
+                           witness=(_throw_sampler(N), 120))
 
 
 def job_cut(N, tier):
